@@ -31,7 +31,8 @@ ASSUMPTIONS = ["meshes are valid inputs of the mesh classes (manifold surfaces, 
                "coordinates are finite; for stl within the float32 range (the format stores float32)",
                "stl expresses triangles and quads (as two triangles); for larger polygons the exporter's explicit ValueError refusal is accepted",
                "attribute names match [A-Za-z_][A-Za-z0-9_]* and avoid the names reserved by mouette / geogram",
-               "string attribute values hold no whitespace, '#', line break or bracket (the format stores one value per line)",
+               "string attribute values hold no whitespace, '#', line break or bracket (the format stores one value per line); any length "
+               "(values of a dense string attribute are cut to 32 characters when stored, as documented: what is compared is what the mesh held)",
                "config switches are constant during a case (build, save, load)",
                "layout variation of foreign files is limited to the forms the importers' own handling shows as intended (DESIGN C04 oracle 3)"]
 
@@ -291,7 +292,10 @@ def attr_value(typ):
         return st.booleans()
     if typ == "complex":
         return st.tuples(st.floats(-10, 10), st.floats(-10, 10)).map(lambda t: complex(*t))
-    return st.one_of(st.just(""), st.text(alphabet="abcXYZ019_", min_size=1, max_size=8), st.text(alphabet="abcXYZ019_", max_size=8))
+    # (values longer than 32 characters: the 32-character limit is documented for the dense storage only, where the value
+    #  is already cut when it is stored; the sparse storage keeps - and must round-trip - the whole string)
+    return st.one_of(st.just(""), st.text(alphabet="abcXYZ019_", min_size=1, max_size=8), st.text(alphabet="abcXYZ019_", max_size=8),
+                     st.text(alphabet="abcXYZ019_", min_size=33, max_size=70))
 
 
 @st.composite
@@ -353,6 +357,15 @@ def case_strategy(draw, fmt):
                       "fill": draw(st.sampled_from([None, 1, 2]))})
     c["attrs"] = attrs
     c["ext_upper"] = draw(st.integers(0, 7)) == 0
+    # how the vertices are handed to the mesh: lists of floats, float64 numpy rows, or (when every coordinate is a small integer) int numpy rows
+    c["vform"] = draw(st.sampled_from(["list", "list", "list", "numpy", "numpy", "int"]))
+    if c["vform"] == "int":
+        # integer-typed vertex rows: the coordinates of the realised case are made integral (bounded, so that int64 holds them)
+        c["V"] = [[float(round(max(-1e6, min(1e6, x)))) + 0.0 for x in v] for v in c["V"]]
+        c["V"] = [[0.0 if x == 0 else x for x in v] for v in c["V"]]
+    # the same objects used twice: second save of the same mesh with the same ignore set; second load of the same file (options of load)
+    c["second"] = {"save": draw(st.booleans()),
+                   "load": draw(st.sampled_from([None, "same", "same", "dim0", "dim1", "dim2", "dim3", "raw"]))}
     c["var"] = {"blank": draw(st.booleans()), "spaces": draw(st.booleans()), "floats": draw(st.sampled_from(["repr", "repr", "17g", "17e"])),
                 "seed": draw(st.integers(0, 11)), "face_style": draw(st.sampled_from(["v", "v", "v/vt", "v//vn", "v/vt/vn"])),
                 "dim_two_lines": draw(st.booleans()), "refs": draw(st.booleans()), "extra_blocks": draw(st.booleans()),
@@ -390,12 +403,26 @@ def set_config(case):
     M.config.complete_faces_from_cells = True
 
 
+def integral_coords(case):
+    return all(abs(x) < 2 ** 40 and x == int(x) and not (x == 0 and math.copysign(1, x) < 0) for v in case["V"] for x in v)
+
+
+def vertex_rows(case):
+    import numpy as np
+    vf = case.get("vform", "list")
+    if vf == "int" and integral_coords(case):
+        return [np.array([int(x) for x in v], dtype=np.int64) for v in case["V"]]
+    if vf in ("numpy", "int"):
+        return [np.array([float(x) for x in v], dtype=np.float64) for v in case["V"]]
+    return [[float(x) for x in v] for v in case["V"]]
+
+
 def build_mesh(case):
     """fresh mouette mesh of the case (attributes included)"""
     import mouette as M
     from mouette.mesh.mesh_data import RawMeshData
     raw = RawMeshData()
-    raw.vertices += [[float(x) for x in v] for v in case["V"]]
+    raw.vertices += vertex_rows(case)
     if case["E"]:
         raw.edges += [tuple(e) for e in case["E"]]
     if case["F"]:
@@ -719,6 +746,11 @@ def label_case(case, ctx, N):
     ctx.label("complete_edges=" + str(case["cfg"]["complete_edges_from_faces"]))
     if fmt == "obj":
         ctx.label("export_edges=" + str(case["cfg"]["export_edges_in_obj"]))
+    vf = case.get("vform", "list")
+    ctx.label("vertices=" + ("int-numpy" if vf == "int" and integral_coords(case) else "float-numpy" if vf in ("numpy", "int") else "float-list"))
+    for a in case.get("attrs", []):
+        if a["type"] == "str" and any(len(x) > 32 for _, v in a["vals"] for x in (v if isinstance(v, list) else [v])):
+            ctx.label("attr:str:long>32:" + ("dense" if a["dense"] else "sparse"))
     if case.get("ext_upper"):
         ctx.label("extension=UPPER")
     if case.get("ignore") is not None:
@@ -772,11 +804,12 @@ def fn_roundtrip(case, ctx):
     try:
         path = os.path.join(d, "m." + (fmt.upper() if case.get("ext_upper") else fmt))
         soup = stl_soup(N["V"], P["F"]) if fmt == "stl" else None
+        ig_arg = None if ignore is None else set(ignore)
         try:
             if ignore is None:
                 M.mesh.save(m, path)
             else:
-                M.mesh.save(m, path, ignore_elements=set(ignore))
+                M.mesh.save(m, path, ignore_elements=ig_arg)
         except ValueError as e:
             if fmt == "stl" and soup is None and "Only triangular and quad" in str(e):
                 ctx.label("stl:polygon-refused")
@@ -803,6 +836,17 @@ def fn_roundtrip(case, ctx):
         ctx.check(s1 == s0 and attr_table(m, case) == orig_attrs, "save:source-mesh-changed",
                   f"after save(ignore_elements={ignore}) the mesh that was saved holds {short(s1, 300)}, before {short(s0, 300)}")
         data = open(path, "rb").read()
+        ctx.check(ig_arg is None or ig_arg == set(ignore), "save:argument-changed", f"save changed its ignore_elements argument to {ig_arg!r} (was {set(ignore or [])!r})")
+        second = case.get("second") or {}
+        if second.get("save"):
+            # the same mesh object (and the same ignore set) saved a second time must give the same file
+            ctx.label("second:save")
+            path2 = os.path.join(d, "again." + (fmt.upper() if case.get("ext_upper") else fmt))
+            ok2, _ = ctx.call("save2", (lambda: M.mesh.save(m, path2)) if ignore is None else (lambda: M.mesh.save(m, path2, ignore_elements=ig_arg)))
+            if ok2 and ctx.check(os.path.isfile(path2), "save2:no-file", "second save wrote no file"):
+                data2 = open(path2, "rb").read()
+                ctx.check(data2 == data, "save2:differs", f"saving the same mesh a second time wrote a different file ({len(data2)} bytes vs {len(data)}): "
+                          f"first difference at byte {next((i for i, (x, y) in enumerate(zip(data, data2)) if x != y), min(len(data), len(data2)))}")
 
         # ---------------- oracle 2: the independent reader
         Pe = P["E"][0]
@@ -877,6 +921,8 @@ def fn_roundtrip(case, ctx):
             return
         exp = normalise(P["V"], Pe, P["F"], P["C"], cfg["complete_edges_from_faces"], hard_attr=P["hard_attr"])
         same = compare_loaded(ctx, "rt", snap, exp, "load(save(m))", per_kind=(fmt == "mesh"))
+        if same and loaded is not None and second.get("load"):
+            second_load(ctx, path, second["load"], snap, exp, P)
 
         # ---------------- oracle 4: attributes (geogram) / normals (xyz)
         if loaded is None:
@@ -904,6 +950,46 @@ def fn_roundtrip(case, ctx):
                       f"element {bad[0] if bad else None} loaded as {got[bad[0]] if bad else None!r}, saved as {vals[bad[0]] if bad else None!r}")
     finally:
         shutil.rmtree(d, ignore_errors=True)
+
+
+def second_load(ctx, path, mode, snap, exp, P):
+    """the same file loaded a second time in the same process, plain or with the documented options of load (dim, raw)"""
+    import mouette as M
+    ctx.label("second:load=" + mode)
+    if mode == "raw":
+        ok, r = ctx.call("load2:raw", lambda: M.mesh.load(path, raw=True))
+        if not ok:
+            return
+        if not ctx.check(type(r).__name__ == "RawMeshData", "load2:raw", f"load(raw=True) returned a {type(r).__name__}"):
+            return
+        try:
+            V = [[float(x) for x in v] for v in r.vertices]
+            F = [[int(x) for x in f] for f in r.faces]
+            C = [[int(x) for x in c] for c in r.cells]
+        except Exception as e:
+            ctx.fail("load2:raw", f"raw data malformed: {e}")
+            return
+        ctx.check(same_coords(V, P["V"]) and F == exp["F"][:exp["nF_decl"]] and C == exp["C"], "load2:raw",
+                  f"load(raw=True): {len(V)} vertices, faces {short(F)}, cells {short(C)}; the file holds {len(P['V'])} vertices, faces {short(exp['F'][:exp['nF_decl']])}, cells {short(exp['C'])}")
+        return
+    k = None if mode == "same" else int(mode[3:])
+    ok, m2 = ctx.call("load2", (lambda: M.mesh.load(path)) if k is None else (lambda: M.mesh.load(path, k)))
+    if not ok:
+        return
+    try:
+        s2 = snapshot(m2)
+    except ValueError as e:
+        ctx.fail("load2:malformed", f"second load (dim={k}): {e}")
+        return
+    d0 = CLS.index(exp["cls"])
+    want = [exp["cls"]] if k is None else [CLS[k]] if k >= d0 else [CLS[k], CLS[d0]]   # (dim below the data's own: docstring and code differ, both accepted)
+    ctx.check(s2["cls"] in want, "load2:class", f"second load of the same file with dim={k} gives a {s2['cls']}, expected {' or '.join(want)}")
+    if s2["cls"] == snap["cls"]:
+        ctx.check({x: s2[x] for x in ("V", "E", "F", "C", "hard")} == {x: snap[x] for x in ("V", "E", "F", "C", "hard")}, "load2:differs",
+                  f"second load of the same file (dim={k}) differs from the first: {short(s2, 300)} vs {short(snap, 300)}")
+    else:
+        ctx.check(same_coords(s2["V"], snap["V"]) and s2["C"] == snap["C"] and s2["F"][:exp["nF_decl"]] == snap["F"][:exp["nF_decl"]],
+                  "load2:differs", f"load(dim={k}) changed the content: {short(s2, 300)} vs {short(snap, 300)}")
 
 
 def attr_dropped(cont, ignore):
